@@ -38,6 +38,9 @@ OUTCOMES = [
     ('batch_err_unlisted', 0, 2), ('garbage', 1, 1), ('invalid', 1, 1), ('id_mismatch', 1, 1), ('abort', 1, 1),
     # the transport itself ends the attempt with asyncio.CancelledError (a BaseException; a cancelled inner future)
     ('exc_cancelled', 1, 1),
+    # the transport raises StopIteration (a canned-replies fake that ran out): an ordinary Exception with special
+    # treatment by generators and coroutines; only a synchronous transport can raise it to its caller
+    ('exc_stopiter', 1, 1),
 ]
 
 
@@ -120,6 +123,10 @@ def draw_scenario(ch: Choices, cancel: bool = False, max_tracers: int = 3) -> Di
         'in_except': ch.flag(1, 4, 'caller.in_except'),
         # how ids are generated: the library default, or a user id_gen_impl that hands out ONE long-lived generator
         'id_gen': ch.choice(['default', 'default', 'shared_counter'], 'client.id_gen'),
+        # the library's own LoggingTracer configured next to the recording tracers (None = not configured, else its index)
+        'lib_tracer': ch.choice([None, None, 0, 1, 9], 'tracers.lib'),
+        # what the caller hands over as trace context: a namespace, or an object that accepts no new attributes
+        'ctx_kind': ch.choice(['namespace', 'namespace', 'object', 'slots'], 'tracers.ctx_kind'),
         'hooks': ch.flag(1, 4, 'client.hooks'),
     }
     if cancel and ch.flag(1, 2, 'cancel'):
@@ -163,6 +170,14 @@ def build_strategy(desc: Optional[Dict[str, Any]]) -> Optional[pj_retry.RetryStr
         codes=set(desc['codes']) if desc['codes'] is not None else None,
         exceptions={EXC_CLASSES[n] for n in desc['exceptions']} if desc['exceptions'] is not None else None,
     )
+
+
+class _SlotsCtx:
+    """A caller-supplied trace context that accepts no new attributes."""
+    __slots__ = ('mark',)
+
+    def __init__(self) -> None:
+        self.mark = 'caller-ctx'
 
 
 class TracerTrouble(Exception):
@@ -227,9 +242,9 @@ def _net_script(scn: Dict[str, Any]) -> List[Dict[str, Any]]:
             p['resp'] = ('batch_error', LISTED_CODE, 'scripted batch error')
         elif o == 'batch_err_unlisted':
             p['resp'] = ('batch_error', UNLISTED_CODE, 'scripted batch error')
-        elif o in ('exc_conn', 'exc_reset', 'exc_timeout', 'exc_other', 'abort', 'exc_cancelled'):
+        elif o in ('exc_conn', 'exc_reset', 'exc_timeout', 'exc_other', 'abort', 'exc_cancelled', 'exc_stopiter'):
             p['exc'] = {'exc_conn': 'conn', 'exc_reset': 'reset', 'exc_timeout': 'timeout', 'exc_other': 'other',
-                        'abort': 'abort', 'exc_cancelled': 'cancelled'}[o]
+                        'abort': 'abort', 'exc_cancelled': 'cancelled', 'exc_stopiter': 'stopiter'}[o]
             p['exc_when'] = 'before'
         elif o == 'lost_conn':
             p['exc'] = 'conn'
@@ -271,7 +286,10 @@ def make_op(st: Stack, scn: Dict[str, Any], toks: List[str], obs: 'Obs') -> Any:
     """The caller's operation for one scripted request on ``st.client``: a thunk returning a value (sync client) or an
     awaitable (async client)."""
     cl = st.client
-    ctx = SimpleNamespace(mark='caller-ctx') if scn['trace_ctx'] else None
+    ctx: Any = None
+    if scn['trace_ctx']:
+        kind = scn.get('ctx_kind', 'namespace')
+        ctx = SimpleNamespace(mark='caller-ctx') if kind == 'namespace' else object() if kind == 'object' else _SlotsCtx()
     obs.trace_ctx = ctx
     kw: Dict[str, Any] = {}
     if ctx is not None:
@@ -308,14 +326,21 @@ def make_op(st: Stack, scn: Dict[str, Any], toks: List[str], obs: 'Obs') -> Any:
 
 
 def run_scenario(w: World, scn: Dict[str, Any], client_async: bool, suffix: str = '', sched: Optional[str] = None,
-                 reuse: Optional[Stack] = None, tok_prefix: str = 'f') -> Obs:
+                 reuse: Optional[Stack] = None, tok_prefix: str = 'f', allow_stopiter: bool = False) -> Obs:
     """Execute one scripted request.  With ``reuse`` the request is issued on an existing (long-lived) client /
     server / network: only the fault script is replaced and the attempt counter restarted."""
+    if client_async or not allow_stopiter:
+        for step in scn['script']:
+            if step['outcome'] == 'exc_stopiter':
+                step['outcome'] = 'exc_other'    # (the scenario is shared by both halves of a twin comparison)
     obs = Obs()
     node = 'client' + suffix
     if reuse is None:
         tracers = [RecTracer(w, i, node, raises_on_end=(scn.get('tracer_raises_on_end') == i))
                    for i in range(scn['tracers'])]
+        if scn.get('lib_tracer') is not None:
+            tracers = list(tracers)
+            tracers.insert(min(scn['lib_tracer'], len(tracers)), pjrpc.client.tracer.LoggingTracer())
         ckw: Dict[str, Any] = {'strict': scn['strict'], 'tracers': tracers,
                                'retry_strategy': build_strategy(scn['client_strategy'])}
         if scn.get('id_gen') == 'shared_counter':
